@@ -25,6 +25,7 @@ def run(ctx, crate):
     rule_hduration_exact_quotient(ctx, crate)
     rule_display_no_own_error(ctx, crate)
     rule_digits_only_grouped(ctx, crate)
+    rule_group_length_of_iterated(ctx, crate)
 
 
 def rule_digits_only_grouped(ctx, crate, rule="R-DIGITS-ONLY-GROUPED"):
@@ -57,6 +58,70 @@ def rule_digits_only_grouped(ctx, crate, rule="R-DIGITS-ONLY-GROUPED"):
                       "a run of integer digits is written without grouping under a condition that is not the length of that run (a shortcut on the numeric value): "
                       "the digits are those of the *rounded* representation - 999.99996 prints `1000` instead of `1,000`", cfg)
     ctx.check(True, rule, "scanned", "format.rs", "src/format.rs:0", "%d wholesale digit writes examined" % n, "", cfg)
+
+
+def rule_group_length_of_iterated(ctx, crate, rule="R-GROUP-LENGTH-OF-DIGITS"):
+    """"a comma after every third integer digit": the comma positions are counted from the end of the digit string, so the length
+    they are computed from is the length of the very string whose characters are written - not of a string that still carries the
+    sign (seed C15n: `-123` prints `-1,23`), a fraction or anything else."""
+    cfg = crate.config
+    n = 0
+    for pat in (r"<format::HumanFloatCount as std::fmt::Display>::fmt", r"<format::HumanCount as std::fmt::Display>::fmt"):
+        b = crate.body(pat)
+        if not b:
+            continue
+        chars = [c for c in b.calls(r"core::str::<impl str>::(chars|bytes|char_indices)")]
+        lens = [c for c in b.calls(r"core::str::<impl str>::len", r"std::string::String::len")]
+        if not chars or not lens:
+            continue
+
+        def roots(c):
+            """The named variable whose text the call reads: back from the receiver through unnamed single-definition temporaries
+            (reborrows, copies, the implicit `String -> str` deref)."""
+            l = operand_local(c.args[0])
+            for _ in range(12):
+                if l is None:
+                    return set()
+                if b.locals[l].get("name") or l <= b.arg_count:
+                    return {l}
+                ds = [d for d in b.defs().get(l, ()) if d["kind"] in ("assign", "call")]
+                if len(ds) != 1:
+                    return {l}
+                d = ds[0]
+                if d["kind"] == "assign" and not d["lhs"]["p"]:
+                    rv = d["rv"]
+                    if rv["k"] in ("use", "cast") and isinstance(rv.get("op"), dict) and rv["op"].get("k") in ("copy", "move") and not [e for e in rv["op"]["place"]["p"] if e != "*"]:
+                        l = rv["op"]["place"]["l"]
+                        continue
+                    if rv["k"] in ("ref", "copyderef") and not [e for e in rv["place"]["p"] if e != "*"]:
+                        l = rv["place"]["l"]
+                        continue
+                elif d["kind"] == "call" and d["call"].matches(r"<std::string::String as std::ops::Deref>::deref", r"std::ops::Deref::deref") and d["call"].args:
+                    l = operand_local(d["call"].args[0])
+                    continue
+                return {l}
+            return {l}
+        croots = set()
+        for c in chars:
+            croots |= roots(c)
+        for L in lens:
+            # only lengths that position the separators: they feed a subtraction / a range / a remainder by 3
+            used = False
+            for i, j, st in b.assigns():
+                rv = st["rv"]
+                if rv["k"] == "bin" and rv["op"] in ("Sub", "SubWithOverflow", "Rem") and L.dest["l"] in b.slice_rv(i, st, through_calls=False).locals | {operand_local(rv["a"]), operand_local(rv["b"])}:
+                    used = True
+            for i, j, st in b.assigns():
+                if st["rv"]["k"] == "agg" and st["rv"].get("adt") in ("std::ops::Range", "core::ops::Range") and L.dest["l"] in b.slice_rv(i, st, through_calls=False).locals:
+                    used = True
+            if not used:
+                continue
+            n += 1
+            ctx.check(bool(roots(L) & croots), rule, "len-of-iterated:%s" % ("float" if "Float" in pat else "count"), b.name, L.loc(),
+                      "the separators are positioned with the length of the digit string that is written",
+                      "the comma positions are computed from the length of a different string than the digits that are written (one that still has the sign, say): "
+                      "negative values are grouped one place off (`-123` prints `-1,23`)", cfg)
+    ctx.floor(rule, n, 2, cfg, "digit-string lengths that position separators")
 
 
 def rule_display_no_own_error(ctx, crate, rule="R-DISPLAY-NO-OWN-ERROR"):
